@@ -212,6 +212,20 @@ func init() {
 			items = append(items, c18Item{string(rs), "random"})
 			c.Dist("random")
 		}
+		// (d) strings related by the names of the validators and of their parts: s and <name>s for every such name
+		// (an answer remembered under a key built from a name and a string must not be given for another pair)
+		names := []string{"user", "set", "userset", "object", "userobject", "wildcard", "userwildcard", "type", "relation", "id", "condition", "Object", "User"}
+		bases := []string{"tings:dark", "ive:q3#owner", "s:all", "up:1", "s:*", "a:b", "a:b#c", "a:*", "x", ":x", "x#y", "a:b:c", "doc:1 ", "é:1"}
+		for i := 0; i < c.Pick(20, 200); i++ {
+			bases = append(bases, items[rng.Intn(len(items))].s)
+		}
+		for _, b := range bases {
+			items = append(items, c18Item{b, "name-related"})
+			for _, nme := range names {
+				items = append(items, c18Item{nme + b, "name-related"}, c18Item{b + nme, "name-related"})
+				c.Dist("name_related")
+			}
+		}
 		c18Run(c, items)
 		c.Sample(map[string]any{"s": "a:a#a", "ValidateUserSet": validation.ValidateUserSet("a:a#a")})
 		c.Sample(map[string]any{"s": strings.Repeat("a", 255), "ValidateType": validation.ValidateType(strings.Repeat("a", 255))})
